@@ -4,7 +4,7 @@
 # The venv is not committed; every registered command calls this first.
 set -e
 cd "$(dirname "$0")"
-V=/verif/.venv
+V="${VERIF_VENV:-$PWD/.venv}"
 if [ ! -x "$V/bin/python" ] || ! "$V/bin/python" -c "import z3, networkx, numpy" >/dev/null 2>&1; then
     rm -rf "$V"
     /venv/bin/python -m venv "$V" >/dev/null
@@ -13,5 +13,5 @@ if [ ! -x "$V/bin/python" ] || ! "$V/bin/python" -c "import z3, networkx, numpy"
     PIP_NO_INDEX=1 "$V/bin/pip" install -q --no-index --find-links /opt/veriftools/wheels z3-solver crosshair-tool >/dev/null 2>&1 \
       || PIP_NO_INDEX=1 "$V/bin/pip" install -q --no-index --find-links /opt/veriftools/wheels z3-solver >/dev/null
 fi
-mkdir -p /verif/evidence /verif/replay
+mkdir -p evidence replay
 exit 0
